@@ -506,8 +506,9 @@ def rule_R3(ctx, prj: Project):
                     return unm
                 return None
             tree = residual_multi(rep, val)
-            shows_count = any(isinstance(x, ast.FormattedValue) and {a.attr for a in ast.walk(x.value) if isinstance(a, ast.Attribute)}
-                              & {"hard_to_maintain", "unmaintainable"} for x in ast.walk(tree))
+            shows_count = any(isinstance(x, ast.FormattedValue) and (({a.attr for a in ast.walk(x.value) if isinstance(a, ast.Attribute)}
+                              & {"hard_to_maintain", "unmaintainable"}) or (isinstance(x.value, ast.Constant) and type(x.value.value) is int))
+                              for x in ast.walk(tree))
             if shows_count != (hard + unm > 0):
                 bad = bad or (hard, unm, shows_count)
     if bad:
